@@ -29,6 +29,10 @@ RetPreds(e) ==
        Iff(~e.returned, "C10_call_returns")
        \cup Iff(e.returned /\ e.err # "", "C10_restartable")
        \cup Iff(e.returned /\ e.err = "" /\ e.phase = "start" /\ (e.blocks < 1 \/ e.st # 2), "C10_active_after_start")
+  ELSE IF e.a = "StartBad" THEN
+       \* a Start that fails in PrepareChannels (StartFail of the model): error reply, source inactive and quiet, card released
+       Iff(~e.returned, "C10_call_returns")
+       \cup Iff(e.returned /\ e.phase = "start" /\ (e.err = "" \/ e.st # 0 \/ ~Quiet(e) \/ e.adapter \/ e.collector), "C10_failed_start_clean")
   ELSE IF e.a = "Stop" THEN
        Iff(~e.returned, "C10_stop_returns")
        \cup Iff(e.returned /\ (~Quiet(e) \/ e.st # 0), "C10_workers_exit")
